@@ -55,6 +55,18 @@ def ev_shpow(k, r, p, x):
     return k * acc
 
 
+def ev_pwt(xs, ys, x):
+    """fn.Piecewise on a strictly increasing table; -1 on its error"""
+    if x != x or not xs or x < xs[0] or x > xs[-1]:
+        return -1.0
+    for j in range(1, len(xs)):
+        if xs[j] >= x:
+            i = j - 1
+            frac = (x - xs[i]) / (xs[j] - xs[i])
+            return ys[i] + frac * (ys[j] - ys[i])
+    return -1.0
+
+
 def ev_pow(k, m, c, x):
     try:
         p = math.pow(x, m)
@@ -78,13 +90,15 @@ class Fn:
             return ev_pwl(self.xs, self.ys, x)
         if self.kind == 'SHPOW':
             return ev_shpow(self.k, self.r, self.p, x)
+        if self.kind == 'PWT':
+            return ev_pwt(self.xs, self.ys, x)
         return ev_pow(self.k, self.m, self.c, x)
 
     def spec(self):
         if self.kind == 'POLY':
             return 'POLY %d %s' % (len(self.cs), ' '.join(f2h(c) for c in self.cs))
-        if self.kind == 'PWL':
-            return 'PWL %d %s %s' % (len(self.xs), ' '.join(f2h(v) for v in self.xs), ' '.join(f2h(v) for v in self.ys))
+        if self.kind in ('PWL', 'PWT'):
+            return '%s %d %s %s' % (self.kind, len(self.xs), ' '.join(f2h(v) for v in self.xs), ' '.join(f2h(v) for v in self.ys))
         if self.kind == 'SHPOW':
             return 'SHPOW %s %s %d' % (f2h(self.k), f2h(self.r), self.p)
         return 'POW %s %s %s' % (f2h(self.k), f2h(self.m), f2h(self.c))
@@ -99,7 +113,9 @@ class Fn:
         if self.kind == 'POLY':
             m = max(abs(a), abs(b))
             return sum(k * abs(c) * m ** (k - 1) for k, c in enumerate(self.cs) if k >= 1)
-        if self.kind == 'PWL':
+        if self.kind == 'PWT' and not (self.xs[0] <= a and b <= self.xs[-1]):
+            return None          # -1 outside the table: not continuous there
+        if self.kind in ('PWL', 'PWT'):
             sl = [abs((self.ys[i] - self.ys[i - 1]) / (self.xs[i] - self.xs[i - 1])) for i in range(1, len(self.xs))]
             return max(sl) if sl else 0.0
         if self.kind == 'SHPOW':
@@ -118,7 +134,7 @@ class Fn:
         if self.kind == 'POLY':
             m = max(abs(a), abs(b), 1.0)
             return sum(abs(c) * m ** k for k, c in enumerate(self.cs)) or 1.0
-        if self.kind == 'PWL':
+        if self.kind in ('PWL', 'PWT'):
             return max([abs(y) for y in self.ys] + [1.0])
         if self.kind == 'SHPOW':
             return abs(self.k) * max(abs(a - self.r), abs(b - self.r), 1.0) ** self.p
@@ -187,7 +203,22 @@ def gen_root_cases(rng, count):
     add(Fn('POLY', cs=[-3.0, 4.0, 0.5]), None, 0.5, 0.0, 2.0, 1e-6, 1e-15, -3, True, 'negative-limit')
 
     while len(cases) < count:
-        fam = rng.choice(['poly-mono', 'poly-mono', 'poly-any', 'pwl-mono', 'pwl-mono', 'pwl-any', 'pow', 'poly-newton', 'flat-root'])
+        fam = rng.choice(['poly-mono', 'poly-mono', 'poly-any', 'pwl-mono', 'pwl-mono', 'pwl-any', 'pow', 'poly-newton', 'flat-root', 'pwt'])
+        if fam == 'pwt':
+            # the residual is a table lookup through the library's own Piecewise (monotone table, bracket inside the table)
+            k = rng.randint(2, 8)
+            xs = [dyadic(rng, -4, 4, 4)]
+            for _ in range(k - 1):
+                xs.append(xs[-1] + dyadic(rng, 0.0625, 2, 4))
+            ys = [dyadic(rng, -8, -0.0625, 4)]
+            for _ in range(k - 1):
+                ys.append(ys[-1] + rng.choice([0.0, dyadic(rng, 0, 4, 4), dyadic(rng, 0, 0.25, 8)]))
+            if ys[-1] < 0:
+                ys[-1] = dyadic(rng, 0, 4, 4)
+            a, b = xs[0], xs[-1]
+            x0, tol, conv, n = params(a, b)
+            add(Fn('PWT', xs=xs, ys=ys), None, x0, a, b, tol, conv, n, True, fam)
+            continue
         if fam == 'flat-root':
             p = rng.choice([3, 3, 5, 7])
             k = rng.choice([1.0, 1.0, 2.0, 0.5])
@@ -354,7 +385,7 @@ def root_oracle(cs, res):
     #     hypotheses of C18_findroot_converges_modulus (n >= 1; w = max((b-a)/2^n, conv), every bracket of width <= w
     #     has an end within the tolerance) resp. C18_findroot_converges (n = 0, Lipschitz), with a factor 2 of margin
     #     on the tolerance for the float run
-    noise_ok = tol >= 1e-11 * scale if f.kind in ('POLY', 'PWL') else tol > 1e-300
+    noise_ok = tol >= 1e-11 * scale if f.kind in ('POLY', 'PWL', 'PWT') else tol > 1e-300
     wn = (b - a) / 2.0 ** max(n, 0)
     Bn, Bc = f.bracket_bound(a, b, wn), f.bracket_bound(a, b, max(conv, 0.0))
     if n == 0:
@@ -382,6 +413,20 @@ def gen_pw_cases(rng, count):
         for _ in range(k - 1):
             xs.append(xs[-1] + rng.choice([dyadic(rng, 0.125, 8, 3), rng.uniform(1e-3, 100.0)]))
         ys = [rng.choice([dyadic(rng, -20, 20, 3), rng.uniform(-1e4, 1e4), 0.0]) for _ in range(k)]
+        # the property is about ALL strictly increasing tables: also tables in tiny / huge units and
+        # near-vertical steps (two knots a few ulps .. 1e-9 relative apart)
+        u = rng.random()
+        if u < 0.2:
+            sc = 10.0 ** rng.randint(-15, 15)
+            xs = [x * sc for x in xs]
+        elif u < 0.35:
+            i = rng.randrange(k)
+            step = rng.choice([math.nextafter(xs[i], INF), xs[i] + abs(xs[i]) * 1e-13 + 1e-300, xs[i] + 1e-10, xs[i] + 1e-12])
+            if step > xs[i] and (i + 1 == k or step < xs[i + 1]):
+                xs.insert(i + 1, step)
+                ys.insert(i + 1, rng.uniform(-1e4, 1e4))
+        if any(not (xs[j] < xs[j + 1]) for j in range(len(xs) - 1)):
+            return table()
         return xs, ys
 
     # fixed
@@ -454,6 +499,168 @@ def pw_oracle(cs, line):
     return fails
 
 
+# ---------------------------------------------------------------- re-entrancy: nested and concurrent solves
+# The model is a pure function; what has to be exercised is the re-entrancy of the CODE: an activation of FindRoot /
+# Piecewise must behave as it does alone when another activation runs inside its residual (NEST) or beside it (PAR).
+def gen_level(rng, base):
+    """a monotone, exactly evaluable problem on a bracket placed near [base]; the brackets of the levels of one nested
+    case are far apart, so a point of one level's bracket is never a legitimate point of another level"""
+    a = base + dyadic(rng, 0, 8, 3)
+    b = a + dyadic(rng, 0.5, 8, 3)
+    fam = rng.choice(['shpow1', 'shpow3', 'pwl', 'pwt', 'quad'])
+    d = None
+    if fam in ('shpow1', 'shpow3'):
+        pw = 1 if fam == 'shpow1' else 3
+        k = rng.choice([1.0, 2.0, 0.5])
+        r = a + (b - a) * dyadic(rng, 0.125, 0.875, 4)
+        f = Fn('SHPOW', k=k, r=r, p=pw)
+        if rng.random() < 0.6:
+            d = Fn('SHPOW', k=k * pw, r=r, p=pw - 1)
+    elif fam in ('pwl', 'pwt'):
+        k = rng.randint(2, 6)
+        cuts = sorted(set([0.0, 1.0] + [dyadic(rng, 0.0625, 0.9375, 4) for _ in range(k - 2)]))
+        xs = [a + (b - a) * c for c in cuts]
+        lo = -dyadic(rng, 1, 8, 3)
+        hi = dyadic(rng, 1, 8, 3)
+        inc = sorted(dyadic(rng, 0, 1, 5) for _ in range(len(xs) - 2))
+        ys = [lo] + [lo + (hi - lo) * v for v in inc] + [hi]
+        f = Fn('PWL' if fam == 'pwl' else 'PWT', xs=xs, ys=ys)
+        if fam == 'pwl' and rng.random() < 0.4:
+            d = Fn('POLY', cs=[dyadic(rng, 0.25, 4, 3)])
+    else:
+        # c1 (x-a) + c2 (x-a)^2 - c0 written in x with dyadic coefficients, increasing on [a,b]
+        c1, c2 = dyadic(rng, 0.5, 4, 3), dyadic(rng, 0, 1, 3)
+        z = (b - a) * dyadic(rng, 0.125, 0.875, 3)
+        cs = [c2 * a * a - c1 * a - (c1 * z + c2 * z * z), c1 - 2 * c2 * a, c2]
+        f = Fn('POLY', cs=cs)
+        if rng.random() < 0.6:
+            d = Fn('POLY', cs=[cs[1], 2 * cs[2]])
+    x0 = rng.choice([a, b, a + (b - a) * dyadic(rng, 0, 1, 4)])
+    return dict(f=f, d=d, x0=x0, a=a, b=b, tol=rng.choice([1e-3, 1e-6, 1e-9]), conv=rng.choice([1e-15, 1e-9, 0.0]),
+                n=0, s=rng.choice([0.0, 0.0009765625, -0.0009765625, 0.00390625]), t=rng.choice([0.0, 0.0009765625, -0.001953125]))
+
+
+def gen_nest_cases(rng, count):
+    cases = []
+    while len(cases) < count:
+        depth = 2 if rng.random() < 0.75 else 3
+        bases = rng.sample([-300.0, -100.0, 0.0, 100.0, 200.0, 1000.0], depth)
+        levels = [gen_level(rng, bs) for bs in bases]
+        for i, lv in enumerate(levels):
+            lv['n'] = rng.choice([1, 2, 3, 5, 8] if depth == 2 else [1, 2, 3])
+            # couplings small against the end values: (f x - t*p) + s*y  with  |t*p|, |s*y| <= 0.2
+            lv['t'] = 0.0 if i == 0 else rng.choice([0.0, 0.05, -0.05, 0.2]) / max(abs(levels[i - 1]['a']), abs(levels[i - 1]['b']), 1.0)
+            lv['s'] = 0.0 if i + 1 == depth else rng.choice([0.0, 0.05, -0.05, 0.2]) / max(abs(levels[i + 1]['a']), abs(levels[i + 1]['b']), 1.0)
+        cases.append(levels)
+    return cases
+
+
+def nest_line(levels):
+    parts = ['NEST', str(len(levels))]
+    for lv in levels:
+        parts += [lv['f'].spec(), lv['d'].spec() if lv['d'] else 'NONE'] + [f2h(lv[k]) for k in ('x0', 'a', 'b', 'tol', 'conv')] + \
+                 [str(lv['n']), f2h(lv['s']), f2h(lv['t'])]
+    return ' '.join(parts)
+
+
+def parse_nest(line):
+    """-> list of activations dict(level, p, x, delta, evals, vals, devals) | None (PANIC etc.)"""
+    if not line.startswith('OK T '):
+        return None
+    cv = lambda z: NAN if z == 'nan' else h2f(z)
+    acts = []
+    for rec in line.split(' | ')[1:]:
+        t = rec.split()
+        assert t[0] == 'L' and t[2] == 'P' and t[4] == 'X' and t[7] == 'E'
+        ne = int(t[8])
+        ev = [cv(z) for z in t[9:9 + ne]]
+        q = 9 + ne
+        assert t[q] == 'V'
+        nv = int(t[q + 1])
+        vs = [cv(z) for z in t[q + 2:q + 2 + nv]]
+        q += 2 + nv
+        assert t[q] == 'D'
+        nd = int(t[q + 1])
+        dv = [cv(z) for z in t[q + 2:q + 2 + nd]]
+        acts.append(dict(level=int(t[1]), p=cv(t[3]), x=cv(t[5]), delta=cv(t[6]), evals=ev, vals=vs, devals=dv))
+    return acts
+
+
+def nest_oracle(levels, acts):
+    """the interval / value clauses on every activation of a nested run (implementation output)"""
+    fails = []
+    for k, ac in enumerate(acts):
+        lv = levels[ac['level'] - 1]
+        a, b, tol = lv['a'], lv['b'], lv['tol']
+        if ac['p'] != ac['p'] or len(ac['vals']) < 3 or any(v != v for v in ac['vals'][:3]):
+            continue                                   # activation started from a NaN point of its parent: nothing is claimed
+        fa, fb = ac['vals'][2], ac['vals'][1]
+        if not (fa <= 0 <= fb):
+            continue
+        nan_key = 'nan-trial-zero-secant-denominator' if (fa == 0 and (fb == 0 or tol <= 0)) else None
+        where = 'activation %d (level %d, parent point %r, bracket [%r, %r])' % (k, ac['level'], ac['p'], a, b)
+        if [f2h(v) for v in ac['evals'][:3]] != [f2h(lv['x0']), f2h(b), f2h(a)]:
+            fails.append(('initial-evaluations', None, '%s: %r' % (where, ac['evals'][:3])))
+        bad = [e for e in ac['evals'] + ac['devals'] if not (a <= e <= b)]
+        if bad:
+            fails.append(('evaluated-outside-interval', nan_key if bad[0] != bad[0] else None, '%s: fn evaluated at %r' % (where, bad[0])))
+        if not (a <= ac['x'] <= b):
+            fails.append(('point-outside-interval', nan_key if ac['x'] != ac['x'] else None, '%s: returned %r' % (where, ac['x'])))
+        idx = [i for i, e in enumerate(ac['evals']) if f2h(e) == f2h(ac['x'])]
+        if not idx or f2h(ac['vals'][idx[-1]]) != f2h(ac['delta']):
+            fails.append(('value-is-not-f-of-point', None, '%s: x=%r delta=%r' % (where, ac['x'], ac['delta'])))
+        if len(fails) >= 4:
+            break
+    return fails
+
+
+def gen_par_cases(rng, count, rcases, pcases):
+    """-> list of dict(g, reps, seed, items=[(kind, case, line)]) drawn from the single-call streams"""
+    rpool = [cs for cs in rcases if cs['valid'] and cs['f'].exact and (cs['d'] is None or cs['d'].exact) and cs['n'] >= 2 and
+             all(math.isfinite(v) for v in (cs['tol'], cs['conv'], cs['a'], cs['b'])) and cs['tag'] != 'nan-function']
+    ppool = [cs for cs in pcases if cs['kind'] in ('inside', 'mid', 'knot', 'outside', 'nan')]
+    out = []
+    for _ in range(count):
+        items = [('ROOT', cs, root_line(cs)) for cs in rng.sample(rpool, min(len(rpool), rng.randint(12, 24)))]
+        items += [('PIECEWISE', cs, pw_line(cs)) for cs in rng.sample(ppool, min(len(ppool), 8))]
+        rng.shuffle(items)
+        out.append(dict(g=rng.choice([8, 12, 16]), reps=3, seed=rng.randint(1, 10 ** 6), items=items))
+    return out
+
+
+def par_line(pc):
+    return 'PAR %d %d %d %d %s' % (pc['g'], pc['reps'], pc['seed'], len(pc['items']), ' '.join(l for (_, _, l) in pc['items']))
+
+
+def parse_par(line):
+    """-> (alone outputs, runs, mismatches, (index, concurrent output) | None) | None"""
+    if not line.startswith('OK R '):
+        return None
+    parts = line.split(' | ')
+    k = int(parts[0].split()[2])
+    alone = parts[1:1 + k]
+    ct = parts[1 + k].split()
+    first = None
+    if len(parts) > 2 + k:
+        idx, _, out = parts[2 + k].partition(' ')
+        first = (int(idx), out)
+    return alone, int(ct[1]), int(ct[2]), first
+
+
+def race_run(lines):
+    """the concurrent stream once more under the Go race detector -> ('ok' | 'unavailable: ..' , report or None)"""
+    try:
+        build_harness(['owrun'], race=True)
+    except BuildError as e:
+        return 'unavailable: race build failed (%s)' % e.output.strip().split('\n')[-1][:120], None
+    p = subprocess.run([os.path.join(HARNESS, 'bin', 'owrun-race')], input='\n'.join(lines) + '\n', stdout=subprocess.PIPE,
+                       stderr=subprocess.PIPE, text=True, timeout=900, env=GOENV)
+    if 'DATA RACE' in p.stderr:
+        i = p.stderr.index('DATA RACE')
+        return 'race', p.stderr[max(0, i - 20):i + 2500]
+    return 'ok', None
+
+
 # ---------------------------------------------------------------- replay
 def fn_from(d):
     if d is None:
@@ -475,9 +682,19 @@ def replay(path):
     li = run_impl([line])[0]
     lm = run_model([line])[0]
     print('case :', line)
-    print('impl :', li)
-    print('model:', lm)
-    if line.startswith('ROOT'):
+    print('impl :', li[:3000])
+    print('model:', lm[:3000])
+    if line.startswith('NEST'):
+        levels = [dict(f=fn_from(l['function']), d=fn_from(l['derivative']), **{k: l[k] for k in ('x0', 'a', 'b', 'tol', 'conv', 'n', 's', 't')})
+                  for l in obj['levels']]
+        acts = parse_nest(li)
+        fails = nest_oracle(levels, acts) if acts is not None else []
+    elif line.startswith('PAR'):
+        r = parse_par(li)
+        fails = [('concurrent-run-crashed', None, li[:300])] if r is None else \
+            ([('result-depends-on-concurrent-calls', None, '%d of %d runs differ' % (r[2], r[1]))] if r[2] else [])
+        lm = li          # the model has no concurrency; the items alone are compared in the main run
+    elif line.startswith('ROOT'):
         cs = dict(f=fn_from(obj['function']), d=fn_from(obj.get('derivative')), x0=obj['x0'], a=obj['a'], b=obj['b'],
                   tol=obj['tol'], conv=obj['conv'], n=obj['n'], mono=obj.get('mono', False), valid=True, tag='replay')
         fails = root_oracle(cs, parse_root(li))
@@ -526,7 +743,7 @@ def main():
     stats = {'root_cases': len(rcases), 'piecewise_cases': len(pcases), 'root_valid_oracle_cases': 0, 'root_monotone_cases': 0,
              'root_with_derivative': 0, 'root_returned_within_tol': 0, 'root_budget_clause_applicable': 0,
              'root_fn_evaluations_total': 0, 'root_panics_both_sides': 0, 'piecewise_errors': 0, 'piecewise_values': 0,
-             'piecewise_nan_or_inf_queries': 0, 'families': {}, 'known_finding_cases': {}}
+             'piecewise_nan_or_inf_queries': 0, 'families': {}, 'known_finding_cases': {}, 'root_mismatches': 0}
     # ---- FindRoot
     for i, cs in enumerate(rcases):
         li, lm = impl[i], model[i]
@@ -534,6 +751,7 @@ def main():
         diff = root_agree(li, lm, cs['f'].exact and (cs['d'] is None or cs['d'].exact))
         if diff:
             c.corr_broken.append({'case': cs['tag'], 'diff': diff, 'case_line': rlines[i]})
+            stats['root_mismatches'] += 1
         res = parse_root(li)
         nontrivial = res[0] == 'OK' and len(res[3]) >= 6          # at least two complete trial evaluations beyond the first
         c.count(rlines[i], nontrivial=nontrivial)
@@ -582,6 +800,78 @@ def main():
                                                             'query_kind': cs['kind'], 'impl': li, 'model': lm, 'case_line': plines[j]}, key=key)
         if j % 211 == 0:
             c.sample({'xs': cs['xs'], 'ys': cs['ys'], 'query': repr(cs['q']), 'result': li}, limit=6)
+    # ---- re-entrancy: nested solves (1 and 2 levels of FindRoot inside the residual)
+    def lvdesc(lv):
+        return dict(function=lv['f'].describe(), derivative=lv['d'].describe() if lv['d'] else None,
+                    **{k: lv[k] for k in ('x0', 'a', 'b', 'tol', 'conv', 'n', 's', 't')})
+    ncases = gen_nest_cases(rng, 200 if quick else 3000)
+    nlines = [nest_line(lv) for lv in ncases]
+    nimpl = run_impl(nlines)
+    nmodel = run_model(nlines)
+    stats.update(nest_cases=len(ncases), nest_depth3_cases=sum(1 for lv in ncases if len(lv) == 3), nest_activations=0,
+                 nest_panics_both_sides=0, nest_mismatches=0)
+    for i, (lv, li, lm) in enumerate(zip(ncases, nimpl, nmodel)):
+        acts = parse_nest(li)
+        c.count(nlines[i], nontrivial=acts is not None and len(acts) >= 4)
+        if acts is None and not lm.startswith('OK'):
+            stats['nest_panics_both_sides'] += 1
+        fails = nest_oracle(lv, acts) if acts is not None else []
+        for (kind, key, detail) in fails:
+            rep = {'kind': 'nested-' + kind, 'detail': detail, 'levels': [lvdesc(x) for x in lv], 'impl': li[:6000], 'model': lm[:6000],
+                   'case_line': nlines[i]}
+            if not c.violation('nest_%d_%s.json' % (i, kind), rep, key=key):
+                stats['known_finding_cases'][key] = stats['known_finding_cases'].get(key, 0) + 1
+        if acts is not None:
+            stats['nest_activations'] += len(acts)
+        if li != lm:
+            stats['nest_mismatches'] += 1
+            first = next((k for k, (x, y) in enumerate(zip(li.split(' | '), lm.split(' | '))) if x != y), None)
+            c.corr_broken.append({'case': 'nested depth %d' % len(lv), 'diff': 'first differing record %r' % first, 'case_line': nlines[i]})
+            if not fails and stats['root_mismatches'] == 0:
+                # single calls agree with the model everywhere, the same solves nested do not: the code's activation is not a
+                # function of its arguments (it sees state of the activation running inside its residual)
+                c.violation('nest_%d_not-reentrant.json' % i, {
+                    'kind': 'nested-activation-differs-from-the-same-solve-alone', 'detail': 'record %r of the trace' % first,
+                    'levels': [lvdesc(x) for x in lv], 'impl': li[:6000], 'model': lm[:6000], 'case_line': nlines[i]})
+        if i % 67 == 0 and acts:
+            c.sample({'nested_depth': len(lv), 'brackets': [[x['a'], x['b']] for x in lv], 'activations': len(acts),
+                      'outer_result': [acts[-1]['x'], acts[-1]['delta']]}, limit=9)
+    # ---- re-entrancy: the same solves from 8-16 goroutines at once, shuffled
+    pcs = gen_par_cases(rng, 4 if quick else 24, rcases, pcases)
+    parlines = [par_line(pc) for pc in pcs]
+    pimpl = run_impl(parlines)
+    stats.update(par_cases=len(pcs), par_items=0, par_concurrent_runs=0, par_mismatches=0)
+    for i, (pc, li) in enumerate(zip(pcs, pimpl)):
+        r = parse_par(li)
+        c.count(parlines[i], nontrivial=r is not None and r[1] > 0)
+        if r is None:
+            c.violation('par_%d_crash.json' % i, {'kind': 'concurrent-run-crashed', 'detail': li[:500], 'goroutines': pc['g'],
+                                                  'items': [l for (_, _, l) in pc['items']], 'case_line': parlines[i]})
+            continue
+        alone, runs, bad, first = r
+        stats['par_items'] += len(alone)
+        stats['par_concurrent_runs'] += runs
+        stats['par_mismatches'] += bad
+        ml = run_model([l for (_, _, l) in pc['items']])
+        for k, (x, y) in enumerate(zip(alone, ml)):
+            if x != y:
+                c.corr_broken.append({'case': 'par item run alone', 'diff': 'impl=%s model=%s' % (x[:200], y[:200]), 'case_line': pc['items'][k][2]})
+        if bad:
+            k, out = first
+            kind, cs, line = pc['items'][k]
+            extra = [f[0] + ': ' + f[2] for f in (root_oracle(cs, parse_root(out)) if kind == 'ROOT' else pw_oracle(cs, out))]
+            c.violation('par_%d_depends-on-concurrent-calls.json' % i, {
+                'kind': 'result-depends-on-concurrent-calls',
+                'detail': '%d of %d concurrent runs differ from the same call run alone; first: item %d' % (bad, runs, k),
+                'item': line, 'alone': alone[k], 'concurrent': out, 'oracle_on_concurrent_output': extra,
+                'goroutines': pc['g'], 'case_line': parlines[i]})
+        if i == 0:
+            c.sample({'concurrent_goroutines': pc['g'], 'items': len(alone), 'runs': runs, 'differing_runs': bad}, limit=10)
+    # the same stream under the Go race detector
+    race, report = race_run(parlines[:1] if quick else parlines[:6])
+    if race == 'race':
+        c.violation('race_detected.json', {'kind': 'data-race-detected', 'detail': report, 'case_line': parlines[0]})
+    stats['race_detector'] = race
     c.cov['rule'] = ('FindRoot: test functions evaluated identically by Go, the extracted model and this script (Horner polynomials with dyadic '
                      'coefficients: non-decreasing cubics on [a,b] with a>=0 and three-root cubics with a sign change; k*(x-r)^p with odd p (flat at the root) with its derivative and iteration limits around the number of halvings that reach the tolerance; piecewise-linear with kinks '
                      'and flats, monotone and zig-zag; k*x^m-c through libm compared at rtol 1e-9), derivative absent / true / arbitrary, guesses at '
@@ -590,12 +880,18 @@ def main():
                      'and the complete sequences of fn and fn_dx evaluation points. Non-trivial ROOT case = a run with at least 6 fn evaluations (past '
                      'the first trial pair). Piecewise: strictly increasing tables of length 2-12 (dyadic and random), queries at knots, inside, '
                      'midpoints, one ulp inside/outside the ends, outside, +-Inf, NaN; plus empty/single/duplicate/unsorted tables compared '
-                     'model-vs-code only. Non-trivial PIECEWISE case = a value returned for a query between two knots. Distinct = distinct case lines.')
+                     'model-vs-code only. Non-trivial PIECEWISE case = a value returned for a query between two knots. Re-entrancy: NEST = residuals that '
+                     'themselves call FindRoot 1 and 2 levels deep (monotone levels on far-apart brackets, with/without derivative, some looking tables up '
+                     'through Piecewise), every activation of every level compared with the model run of that activation on its own and checked against '
+                     'the interval/value clauses (non-trivial = at least 4 activations); PAR = 20-30 solves and lookups of the single-call streams run '
+                     'alone, then 3 times each from 8-16 goroutines in shuffled orders yielding inside every residual evaluation, every concurrent '
+                     'output compared with the output alone (and alone with the model), once more under the Go race detector. Distinct = distinct case lines.')
     c.finish(extra_cov=dict(stats, exhaustive=False, coqchk=coqchk),
              assumptions=['theorems are over exact reals; binary64 round-off is covered only by the differential run and the oracle with the stated slacks '
                           '(1e-12 relative on table values: y0 + 1*(y1-y0) may differ from y1 by an ulp)',
                           'fn is treated as a pure function (the model calls it exactly as often and in the same order as the Go code, which is what the '
-                          'evaluation-sequence comparison tests)',
+                          'evaluation-sequence comparison tests); re-entrancy of the Go code (nested and concurrent activations), which the pure model '
+                          'has by construction, is tested by the NEST and PAR streams, not proved',
                           'OCaml libm stands in for Go math.Pow in the k*x^m-c family (rtol 1e-9)',
                           'Piecewise is exercised on contiguous 1-D arrays built with data.NewArray1DFloat64 (strided views are C01 territory)'])
 
